@@ -125,6 +125,10 @@ func runC03(c *Ctx) {
 	c03OneWrite(c)
 	c03URIDefaults(c)
 	c03ListenerMatch(c)
+	// clause (2) of the property rests on the static route lookup itself: fixed precedence and anchored,
+	// escaped patterns (the C18 rules) are necessary conditions of "the static route configured for the To host"
+	c18Precedence(c)
+	c18Pattern(c)
 }
 
 func c03HopChain(c *Ctx, f *ssa.Function) {
